@@ -275,6 +275,7 @@ pub fn run_c10(a: &Args) {
     let t5e: Vec<char> = all.iter().cloned().filter(|c| trail5e(*c)).collect();
     st.add("repertoire:characters", all.len() as u64); st.add("repertoire:with_trail_byte_5e", t5e.len() as u64);
     let special: Vec<char> = vec!['ÿ', 'þ', 'ï', '»', '¿', '\u{80}', '€', '?', '😀', '\u{fffd}', 'ě', 'ш', 'ώ', 'ı', 'ū', 'ﾏ', '美', '한', '中', '國'];
+    let unrep: Vec<char> = vec!['\u{1f600}', '\u{2764}', '\u{fe0f}', '\u{fe00}', '\u{200d}', '\u{1f3fb}', '\u{1f3ff}', '\u{301}', '\u{20e3}', '\u{e0001}', '\u{fffd}', '\u{10ffff}'];
     let n = if a.thorough() { 300_000 } else { 12_000 };
     let mut seen = HashSet::new();
     for i in 0..n {
@@ -289,6 +290,8 @@ pub fn run_c10(a: &Args) {
             (2, _) => *rng.pick(&MARKERS.chars().collect::<Vec<_>>()),
             (3, _) => *rng.pick(pools.get(&'J').unwrap()),
             (4, 3) => '^',
+            // runs of characters that exist in no codepage (emoji, joiners, variation selectors, skin-tone modifiers, combining marks): one '?' each
+            (5, 3) | (5, 4) | (5, 5) | (6, 3) => *rng.pick(&unrep),
             _ => *rng.pick(&all),
         }).collect();
         st.evaluations += 1; if seen.insert(s.clone()) && !s.is_ascii() { st.distinct_nontrivial += 1; }
